@@ -1014,6 +1014,63 @@ LSTM_NETS = [
     ("lstm_uint8", n_lstm(dt="uint8"), LSTM, "unsigned IFM"),
 ]
 
+def n_memonly(kind, violate, before="conv", after="conv", dt="int8"):
+    """<NPU operator> -> memory-only operator (RESHAPE / SQUEEZE / EXPAND_DIMS) -> <NPU operator>.  violate: None (inside its
+    constraints: absorbed), "requant" (output quantised differently from the input), "rank5" (5-D output, graph output),
+    "int32" (int32 tensors: RESHAPE is not in the int32 operator list)"""
+    def f(rng):
+        net = ng.Net("mem")
+        h, w, c = 4, 6, 8
+        q = (0.05, 0)
+        mk = lambda shape, sc=q[0], zp=q[1]: net.tensor(list(shape), dt, sc, zp)
+        x = net.input([1, h, w, c], dt, q[0], q[1], name="input0")
+        if before == "conv" and dt != "int32":
+            a = ng.conv2d(net, rng, x, c, (1, 1), per_axis=False)
+        else:
+            a = mk([1, h, w, c], 0.1)
+            net.op("ADD", [x, x], [a], dict(FusedActivationFunction=0))
+        osc = float(np.float32(a.scale * 2)) if violate == "requant" else a.scale
+        if kind == "RESHAPE":
+            shp = [1, 1, h, w, c] if violate == "rank5" else [1, w, h, c]
+            r = mk(shp, osc, a.zp)
+            net.op("RESHAPE", [a, net.tensor([len(shp)], "int32", None, None, shp)], [r], dict(NewShape=shp))
+        elif kind == "SQUEEZE":
+            r = mk([h, w, c], osc, a.zp)
+            net.op("SQUEEZE", [a], [r], dict(SqueezeDims=[0]))
+        else:
+            # EXPAND_DIMS of a 3-D tensor: squeeze first (inside the constraints), then expand
+            s3 = mk([h, w, c], a.scale, a.zp)
+            net.op("SQUEEZE", [a], [s3], dict(SqueezeDims=[0]))
+            r = mk([1, h, w, c], osc, a.zp)
+            net.op("EXPAND_DIMS", [s3, net.tensor([], "int32", None, None, 0)], [r], {})
+        y = r
+        if violate != "rank5" and after is not None:
+            if after == "conv" and dt != "int32" and len(r.shape) == 4:
+                y = ng.conv2d(net, rng, r, c, (1, 1), per_axis=False)
+            elif after == "relu":
+                y = ng.unary(net, rng, "RELU", r)
+            else:
+                y = mk(r.shape, 0.2)
+                net.op("ADD", [r, r], [y], dict(FusedActivationFunction=0))
+        net.output(y)
+        return net
+    return f
+
+
+MEMONLY_NETS = [
+    ("mem_reshape_ok", n_memonly("RESHAPE", None), "RESHAPE", "inside: conv -> RESHAPE -> conv, equal quantisation"),
+    ("mem_reshape_requant", n_memonly("RESHAPE", "requant"), "RESHAPE", "conv -> RESHAPE with another output scale -> conv"),
+    ("mem_reshape_requant_first", n_memonly("RESHAPE", "requant", before="add"), "RESHAPE", "ADD -> RESHAPE requantising -> conv"),
+    ("mem_reshape_requant_last", n_memonly("RESHAPE", "requant", after=None), "RESHAPE", "conv -> RESHAPE requantising as graph output"),
+    ("mem_reshape_rank5", n_memonly("RESHAPE", "rank5"), "RESHAPE", "conv -> RESHAPE to rank 5 (graph output)"),
+    ("mem_reshape_int32", n_memonly("RESHAPE", "int32", dt="int32"), "RESHAPE", "int32 ADD -> RESHAPE -> ADD (RESHAPE is not an int32 operator)"),
+    ("mem_reshape_int8_add", n_memonly("RESHAPE", None, before="add", after="add"), "RESHAPE", "inside: ADD -> RESHAPE -> ADD"),
+    ("mem_squeeze_ok", n_memonly("SQUEEZE", None, after="relu"), "SQUEEZE", "inside: conv -> SQUEEZE -> RELU"),
+    ("mem_squeeze_requant", n_memonly("SQUEEZE", "requant", after="relu"), "SQUEEZE", "conv -> SQUEEZE with another output scale -> RELU"),
+    ("mem_expand_dims_ok", n_memonly("EXPAND_DIMS", None), "EXPAND_DIMS", "inside: -> EXPAND_DIMS -> conv"),
+    ("mem_expand_dims_requant", n_memonly("EXPAND_DIMS", "requant"), "EXPAND_DIMS", "EXPAND_DIMS with another output scale -> conv"),
+]
+
 MX, AV = "MAX_POOL_2D", "AVERAGE_POOL_2D"
 RB, RN = "RESIZE_BILINEAR", "RESIZE_NEAREST_NEIGHBOR"
 # (name, builder, TFLite opcode of the operator under test, what it probes)
@@ -1716,7 +1773,7 @@ def run(tier):
              "the sentence the report prints for %s and the predicate the compiler enforces differ: parameters %s -> documented %s, enforced %s" % (
                  name, json.dumps(d["params"])[:160], d["documented"], d["real"]))
     # (c) placement
-    nets = list(NETS) + pair_nets() + list(LSTM_NETS)
+    nets = list(NETS) + pair_nets() + list(LSTM_NETS) + list(MEMONLY_NETS)
     n_fixed = len(nets)
     if tier == "thorough":
         nets += random_nets(random.Random("c16rnd/%d" % vlib.seed()), 150)
